@@ -75,8 +75,9 @@ func Visit(m protoreflect.Message, depth int, f func(m protoreflect.Message, dep
 // following nested KeyData (PRF-based deriver, composite ML-DSA).
 func SecretFields(kd *tinkpb.KeyData) [][]byte {
 	switch kd.GetKeyMaterialType() {
-	case tinkpb.KeyData_ASYMMETRIC_PUBLIC, tinkpb.KeyData_REMOTE:
-		return nil
+	case tinkpb.KeyData_UNKNOWN_KEYMATERIAL, tinkpb.KeyData_SYMMETRIC, tinkpb.KeyData_ASYMMETRIC_PRIVATE:
+	default:
+		return nil // public, remote, and undefined numbers (which the code does not treat as secret)
 	}
 	in := Inner(kd.GetTypeUrl(), kd.GetValue())
 	if in == nil {
